@@ -2,4 +2,4 @@ From Coq Require Import ExtrOcamlBasic ZArith NArith.
 From CA Require Import Model.Support Model.Paths Model.Symbols Model.ConstPass Model.SymResolve Spec.Scope.
 Extraction "../ocaml/gen/symbols_model.ml" support_types collect node_ctxs try_get_by_name format_symbols
   define_symbols resolve_constants_simple prepass assemble_sym
-  build build_from scope_insert scope_resolve enclosing skips_level duplicate_in_scope path_of.
+  build enclosing_at scope_insert scope_resolve enclosing skips_level duplicate_in_scope path_of.
